@@ -42,6 +42,9 @@ from .regex import RegexTimeoutError, RegexStackOverflow
 # nests an interpreter loop on the host stack; this many levels are allowed before the
 # evaluation is stopped with MemoryLimitError instead of overflowing the host stack.
 MAX_NATIVE_DEPTH = 100
+# Longest string repeat() builds; longer results are refused with RangeError like an
+# invalid count (the host would fail with OverflowError or MemoryError instead)
+MAX_STRING_LENGTH = 2**30 - 25
 
 # Verification hook: stays None (one comparison per instruction) unless a
 # harness installs a callback while MICROJS_VERIF=1 is set in the environment.
@@ -2084,6 +2087,11 @@ class VM:
             count = to_integer_or_infinity(args[0]) if args else 0
             if count < 0 or count == float("inf"):
                 raise JSRangeError("Invalid count value")
+            if not s:
+                return ""
+            if len(s) * count > MAX_STRING_LENGTH:
+                # a result no string can hold (the host would fail with its own error)
+                raise JSRangeError("Invalid string length")
             return s * count
 
         def startsWith(*args):
@@ -2255,7 +2263,7 @@ class VM:
 
         def match(*args):
             pattern = args[0] if args else None
-            if pattern is None:
+            if pattern is None or pattern is UNDEFINED:
                 # Match empty string
                 arr = JSArray()
                 arr._elements = [""]
